@@ -31,6 +31,7 @@ type World struct {
 	loadSeconds float64
 	allFuncs    map[*ssa.Function]bool
 	nonNilGlobals map[*ssa.Global]bool
+	globalInits   map[*ssa.Global]ssa.Value
 }
 
 func (W *World) contractError(cl *Clause, err error) {
